@@ -41,7 +41,7 @@ type c02Cfg struct {
 	R          int     `json:"r"`
 	RR         bool    `json:"read_repair"`
 	Ops        []c02Op `json:"ops"`
-	StabFaults bool    `json:"stab_faults"` // members may also stop during the re-stabilisation that follows an earlier stop
+	StabFaults bool    `json:"stab_faults"`     // members may also stop during the re-stabilisation that follows an earlier stop
 	Table      int     `json:"table,omitempty"` // storage table size (0: 64 KiB); 128 makes fragments span several tables
 	Fill       int     `json:"fill,omitempty"`  // extra keys written into k0's partition at the start
 }
@@ -336,19 +336,19 @@ type failingKV struct{ err string }
 
 func (f failingKV) res() simcluster.Res { return simcluster.Res{Err: "cannot-open-dmap:" + f.err} }
 
-func (f failingKV) Label() string                                               { return "failing" }
-func (f failingKV) Put(string, []byte, simcluster.PutOpt) simcluster.Res       { return f.res() }
-func (f failingKV) Get(string) simcluster.Res                                  { return f.res() }
-func (f failingKV) Del(...string) simcluster.Res                               { return f.res() }
-func (f failingKV) Incr(string, int) simcluster.Res                            { return f.res() }
-func (f failingKV) Decr(string, int) simcluster.Res                            { return f.res() }
-func (f failingKV) IncrByFloat(string, float64) simcluster.Res                 { return f.res() }
-func (f failingKV) GetPut(string, []byte) simcluster.Res                       { return f.res() }
-func (f failingKV) Expire(string, time.Duration) simcluster.Res                { return f.res() }
-func (f failingKV) Lock(string, time.Duration, time.Duration) simcluster.Res   { return f.res() }
-func (f failingKV) Unlock(string, []byte) simcluster.Res                       { return f.res() }
-func (f failingKV) Lease(string, []byte, time.Duration) simcluster.Res         { return f.res() }
-func (f failingKV) Destroy() simcluster.Res                                    { return f.res() }
+func (f failingKV) Label() string                                            { return "failing" }
+func (f failingKV) Put(string, []byte, simcluster.PutOpt) simcluster.Res     { return f.res() }
+func (f failingKV) Get(string) simcluster.Res                                { return f.res() }
+func (f failingKV) Del(...string) simcluster.Res                             { return f.res() }
+func (f failingKV) Incr(string, int) simcluster.Res                          { return f.res() }
+func (f failingKV) Decr(string, int) simcluster.Res                          { return f.res() }
+func (f failingKV) IncrByFloat(string, float64) simcluster.Res               { return f.res() }
+func (f failingKV) GetPut(string, []byte) simcluster.Res                     { return f.res() }
+func (f failingKV) Expire(string, time.Duration) simcluster.Res              { return f.res() }
+func (f failingKV) Lock(string, time.Duration, time.Duration) simcluster.Res { return f.res() }
+func (f failingKV) Unlock(string, []byte) simcluster.Res                     { return f.res() }
+func (f failingKV) Lease(string, []byte, time.Duration) simcluster.Res       { return f.res() }
+func (f failingKV) Destroy() simcluster.Res                                  { return f.res() }
 
 func (r *c02Run) doOp(o c02Op) {
 	if o.Kind == "join" {
